@@ -26,6 +26,19 @@
 // function, i-th result), so that `txnResp.Succeeded` reads `Txn#1.0.Succeeded` and a guard such as
 // `m.session != session` reads `m.session == getOrCreateSession#1.0` after negation.
 // Package qualifiers clientv3./concurrency. are dropped, context arguments of etcd calls too.
+//
+// Two further tables (C18 key injectivity, C19 AcquireAll structure):
+//
+//	keyexpr     the expression returned by LeaseManager.leaseKey (etcd key of a resource id) and by
+//	            partitionResourceID (resource id of a topic/partition), resolved to pieces over the
+//	            manager's prefix field (pfx), the string parameter (id), the int parameter (part) and
+//	            literals: form "concat" (fmt.Sprintf with %s/%v/%d, +, strings.Join over a literal slice:
+//	            plain concatenation), "pathjoin" (path.Join / filepath.Join: concatenation FOLLOWED BY
+//	            Clean) or "other" (not resolved)
+//	acquireall  the control skeleton of PartitionLeaseManager.AcquireAll in the row format above; here
+//	            every local that is returned (results) is tracked, so that each store into a result
+//	            slot is a `write` row, and calls <local>.Add/Done/Wait/Go (sync.WaitGroup, errgroup)
+//	            are `call` rows
 package main
 
 import (
@@ -97,6 +110,7 @@ type fnWalker struct {
 	counts  map[string]int
 	rows    []Row
 	effects int
+	sync    bool // also record <local>.Add/Done/Wait/Go calls (table acquireall)
 }
 
 func (w *fnWalker) push() { w.env = append(w.env, map[string]string{}) }
@@ -395,6 +409,15 @@ func (w *fnWalker) effect(c *ast.CallExpr, async bool) (string, bool) {
 				id := w.newID(last.name)
 				w.emit(Row{Kind: "etcd", ID: id, Method: "." + last.name, Args: append([]string{bs}, args...)}, c.Pos())
 				return id, false
+			}
+			// ---- join protocol of a fan-out (table acquireall only)
+			if _, isLocal := base.(*ast.Ident); isLocal && w.sync && bs != w.self {
+				switch last.name {
+				case "Add", "Done", "Wait", "Go":
+					id := w.newID(bs + "." + last.name)
+					w.emit(Row{Kind: "call", ID: id, Method: bs + "." + last.name, Args: args, Async: async}, c.Pos())
+					return id, last.name == "Go"
+				}
 			}
 			// ---- call of another method of the tracked type
 			if bs == w.self && w.methods[last.name] {
@@ -1001,6 +1024,416 @@ func relevant(w *fnWalker) []Row {
 	return out
 }
 
+
+// ---------------------------------------------------------------------------------- one function, every local result tracked
+
+// extractFunc walks ONE method of `typ` (table acquireall): identifiers that are returned are tracked like re-assigned
+// locals (every store into them is a `write` row) and the join protocol of a fan-out is recorded (fnWalker.sync).
+func extractFunc(path, table, typ, fn string) []Row {
+	f, err := parser.ParseFile(fset, path, nil, 0)
+	if err != nil {
+		fail("%v", err)
+	}
+	methods := map[string]bool{}
+	var target *ast.FuncDecl
+	self := ""
+	for _, d := range f.Decls {
+		fd, ok := d.(*ast.FuncDecl)
+		if !ok || fd.Body == nil {
+			continue
+		}
+		if t, name := recvType(fd); t == typ {
+			methods[fd.Name.Name] = true
+			if fd.Name.Name == fn {
+				target, self = fd, name
+			}
+		}
+	}
+	if target == nil {
+		fail("method %s.%s not found in %s", typ, fn, path)
+	}
+	mut := mutables(target)
+	ast.Inspect(target.Body, func(n ast.Node) bool {
+		if r, ok := n.(*ast.ReturnStmt); ok {
+			for _, e := range r.Results {
+				if id, ok := e.(*ast.Ident); ok && id.Name != "nil" && id.Name != "true" && id.Name != "false" {
+					mut[id.Name] = true
+				}
+			}
+		}
+		return true
+	})
+	// stores through a selector of an element (results[i].Err = ...) make the root a tracked local too
+	ast.Inspect(target.Body, func(n ast.Node) bool {
+		if as, ok := n.(*ast.AssignStmt); ok {
+			for _, l := range as.Lhs {
+				if se, ok := l.(*ast.SelectorExpr); ok {
+					if ie, ok := se.X.(*ast.IndexExpr); ok {
+						if id, ok := ie.X.(*ast.Ident); ok {
+							mut[id.Name] = true
+						}
+					}
+				}
+			}
+		}
+		return true
+	})
+	w := &fnWalker{table: table, fn: fn, self: self, methods: methods, mutable: mut, counts: map[string]int{}, sync: true}
+	w.push()
+	w.block(target.Body.List)
+	return relevant(w)
+}
+
+// ---------------------------------------------------------------------------------- key expressions
+
+type KPiece struct {
+	K string `json:"k"` // pfx | id | part | lit
+	S string `json:"s,omitempty"`
+}
+
+type KeyExpr struct {
+	Table  string   `json:"table"` // "keyexpr"
+	Fn     string   `json:"fn"`
+	Form   string   `json:"form"` // concat | pathjoin | other
+	Pieces []KPiece `json:"pieces"`
+	Src    string   `json:"src"`
+	Why    string   `json:"why,omitempty"`
+}
+
+type keyResolver struct {
+	fd     *ast.FuncDecl
+	self   string
+	idPar  string // the string parameter
+	numPar string // the integer parameter
+	why    string
+	depth  int
+}
+
+func (r *keyResolver) fail(why string) []KPiece {
+	if r.why == "" {
+		r.why = why
+	}
+	return nil
+}
+
+func unquote(l *ast.BasicLit) (string, bool) {
+	if l.Kind != token.STRING {
+		return "", false
+	}
+	v := l.Value
+	if len(v) >= 2 && v[0] == '`' {
+		return v[1 : len(v)-1], true
+	}
+	var out string
+	if _, err := fmt.Sscanf(v, "%q", &out); err != nil {
+		return "", false
+	}
+	return out, true
+}
+
+// defs of a local inside the function (id := e / var id = e); nil entries = not a plain definition
+func (r *keyResolver) defs(name string) []ast.Expr {
+	var out []ast.Expr
+	ast.Inspect(r.fd.Body, func(n ast.Node) bool {
+		switch s := n.(type) {
+		case *ast.AssignStmt:
+			for i, l := range s.Lhs {
+				if id, ok := l.(*ast.Ident); ok && id.Name == name {
+					if len(s.Lhs) == len(s.Rhs) {
+						out = append(out, s.Rhs[i])
+					} else {
+						out = append(out, nil)
+					}
+				}
+			}
+		case *ast.ValueSpec:
+			for i, id := range s.Names {
+				if id.Name == name {
+					if i < len(s.Values) {
+						out = append(out, s.Values[i])
+					} else {
+						out = append(out, nil)
+					}
+				}
+			}
+		}
+		return true
+	})
+	return out
+}
+
+// operand: one operand of a format / join: (kind, literal)
+func (r *keyResolver) operand(e ast.Expr) (string, string) {
+	switch x := e.(type) {
+	case *ast.ParenExpr:
+		return r.operand(x.X)
+	case *ast.Ident:
+		if x.Name == r.idPar {
+			return "id", ""
+		}
+		if x.Name == r.numPar {
+			return "part", ""
+		}
+	case *ast.SelectorExpr:
+		if id, ok := x.X.(*ast.Ident); ok && id.Name == r.self && r.self != "" && x.Sel.Name == "prefix" {
+			return "pfx", ""
+		}
+	case *ast.BasicLit:
+		if s, ok := unquote(x); ok {
+			return "lit", s
+		}
+	case *ast.CallExpr:
+		if id, ok := x.Fun.(*ast.Ident); ok && len(x.Args) == 1 {
+			k, s := r.operand(x.Args[0])
+			switch id.Name {
+			case "int", "int32", "int64":
+				if k == "part" {
+					return k, s
+				}
+			case "string":
+				if k == "id" || k == "pfx" || k == "lit" {
+					return k, s
+				}
+			}
+		}
+	}
+	return "", ""
+}
+
+func pkgCall(e ast.Expr, pkg, fn string) (*ast.CallExpr, bool) {
+	c, ok := e.(*ast.CallExpr)
+	if !ok {
+		return nil, false
+	}
+	sel, ok := c.Fun.(*ast.SelectorExpr)
+	if !ok || sel.Sel.Name != fn {
+		return nil, false
+	}
+	id, ok := sel.X.(*ast.Ident)
+	return c, ok && id.Name == pkg
+}
+
+// concat resolves an expression that is a plain concatenation of its operands.
+func (r *keyResolver) concat(e ast.Expr) []KPiece {
+	r.depth++
+	defer func() { r.depth-- }()
+	if r.depth > 8 {
+		return r.fail("expression too deep")
+	}
+	if k, s := r.operand(e); k != "" && k != "part" {
+		return []KPiece{{K: k, S: s}}
+	}
+	switch x := e.(type) {
+	case *ast.ParenExpr:
+		return r.concat(x.X)
+	case *ast.BinaryExpr:
+		if x.Op != token.ADD {
+			return r.fail("operator " + x.Op.String())
+		}
+		a := r.concat(x.X)
+		b := r.concat(x.Y)
+		if a == nil || b == nil {
+			return nil
+		}
+		return append(a, b...)
+	case *ast.Ident:
+		ds := r.defs(x.Name)
+		if len(ds) != 1 || ds[0] == nil {
+			return r.fail(fmt.Sprintf("identifier %s has %d definitions", x.Name, len(ds)))
+		}
+		return r.concat(ds[0])
+	case *ast.CallExpr:
+		if c, ok := pkgCall(x, "fmt", "Sprintf"); ok {
+			return r.sprintf(c)
+		}
+		if c, ok := pkgCall(x, "strconv", "Itoa"); ok && len(c.Args) == 1 {
+			if k, _ := r.operand(c.Args[0]); k == "part" {
+				return []KPiece{{K: "part"}}
+			}
+		}
+		if c, ok := pkgCall(x, "strconv", "FormatInt"); ok && len(c.Args) == 2 && raw(c.Args[1]) == "10" {
+			if k, _ := r.operand(c.Args[0]); k == "part" {
+				return []KPiece{{K: "part"}}
+			}
+		}
+		if c, ok := pkgCall(x, "strings", "Join"); ok && len(c.Args) == 2 {
+			sepK, sep := r.operand(c.Args[1])
+			cl, isLit := c.Args[0].(*ast.CompositeLit)
+			if sepK == "lit" && isLit {
+				var out []KPiece
+				for i, el := range cl.Elts {
+					if i > 0 {
+						out = append(out, KPiece{K: "lit", S: sep})
+					}
+					p := r.concat(el)
+					if p == nil {
+						return nil
+					}
+					out = append(out, p...)
+				}
+				return out
+			}
+		}
+		return r.fail("call " + raw(x.Fun))
+	}
+	return r.fail(fmt.Sprintf("%T", e))
+}
+
+func (r *keyResolver) sprintf(c *ast.CallExpr) []KPiece {
+	if len(c.Args) == 0 {
+		return r.fail("Sprintf without format")
+	}
+	k, f := r.operand(c.Args[0])
+	if k != "lit" {
+		return r.fail("Sprintf format is not a string literal")
+	}
+	args := c.Args[1:]
+	var out []KPiece
+	lit := ""
+	flush := func() {
+		if lit != "" {
+			out = append(out, KPiece{K: "lit", S: lit})
+			lit = ""
+		}
+	}
+	for i := 0; i < len(f); i++ {
+		if f[i] != '%' {
+			lit += string(f[i])
+			continue
+		}
+		if i+1 >= len(f) {
+			return r.fail("format ends in %")
+		}
+		i++
+		v := f[i]
+		if v == '%' {
+			lit += "%"
+			continue
+		}
+		if len(args) == 0 {
+			return r.fail("format has more verbs than operands")
+		}
+		ak, as := r.operand(args[0])
+		args = args[1:]
+		switch {
+		case (v == 's' || v == 'v') && (ak == "id" || ak == "pfx"):
+			flush()
+			out = append(out, KPiece{K: ak})
+		case (v == 'd' || v == 'v') && ak == "part":
+			flush()
+			out = append(out, KPiece{K: "part"})
+		case (v == 's' || v == 'v') && ak == "lit":
+			lit += as
+		default:
+			return r.fail(fmt.Sprintf("verb %%%c with operand kind %q", v, ak))
+		}
+	}
+	if len(args) != 0 {
+		return r.fail("format has fewer verbs than operands")
+	}
+	flush()
+	return out
+}
+
+func normPieces(ps []KPiece) []KPiece {
+	out := []KPiece{}
+	for _, p := range ps {
+		if p.K == "lit" && p.S == "" {
+			continue
+		}
+		if p.K == "lit" && len(out) > 0 && out[len(out)-1].K == "lit" {
+			out[len(out)-1].S += p.S
+			continue
+		}
+		out = append(out, p)
+	}
+	return out
+}
+
+// keyExpr resolves the single returned expression of function `fn` (receiver type `typ`, "" = plain function).
+func keyExpr(path, typ, fn string) KeyExpr {
+	out := KeyExpr{Table: "keyexpr", Fn: fn, Form: "other", Pieces: []KPiece{}}
+	f, err := parser.ParseFile(fset, path, nil, 0)
+	if err != nil {
+		fail("%v", err)
+	}
+	var fd *ast.FuncDecl
+	self := ""
+	for _, d := range f.Decls {
+		x, ok := d.(*ast.FuncDecl)
+		if !ok || x.Body == nil || x.Name.Name != fn {
+			continue
+		}
+		t, name := recvType(x)
+		if t == typ {
+			fd, self = x, name
+		}
+	}
+	if fd == nil {
+		out.Why = "function not found"
+		return out
+	}
+	r := &keyResolver{fd: fd, self: self}
+	if fd.Type.Params != nil {
+		for _, p := range fd.Type.Params.List {
+			t := raw(p.Type)
+			for _, nm := range p.Names {
+				if t == "string" && r.idPar == "" {
+					r.idPar = nm.Name
+				}
+				if (t == "int32" || t == "int" || t == "int64") && r.numPar == "" {
+					r.numPar = nm.Name
+				}
+			}
+		}
+	}
+	var rets []*ast.ReturnStmt
+	ast.Inspect(fd.Body, func(n ast.Node) bool {
+		if _, ok := n.(*ast.FuncLit); ok {
+			return false
+		}
+		if rs, ok := n.(*ast.ReturnStmt); ok {
+			rets = append(rets, rs)
+		}
+		return true
+	})
+	if len(rets) != 1 || len(rets[0].Results) != 1 {
+		out.Why = fmt.Sprintf("%d return statements", len(rets))
+		out.Src = raw(fd.Body)
+		return out
+	}
+	e := rets[0].Results[0]
+	out.Src = raw(e)
+	if id, ok := e.(*ast.Ident); ok {
+		if ds := r.defs(id.Name); len(ds) == 1 && ds[0] != nil {
+			e = ds[0]
+			out.Src = id.Name + " := " + raw(e)
+		}
+	}
+	for _, pk := range []string{"path", "filepath"} {
+		if c, ok := pkgCall(e, pk, "Join"); ok {
+			var ps []KPiece
+			for _, a := range c.Args {
+				p := r.concat(a)
+				if p == nil || len(normPieces(p)) != 1 {
+					out.Why = "path.Join operand not resolved: " + raw(a) + " " + r.why
+					return out
+				}
+				ps = append(ps, normPieces(p)[0])
+			}
+			out.Form, out.Pieces = "pathjoin", ps
+			return out
+		}
+	}
+	ps := r.concat(e)
+	if ps == nil || r.why != "" {
+		out.Why = r.why
+		return out
+	}
+	out.Form, out.Pieces = "concat", normPieces(ps)
+	return out
+}
+
 func main() {
 	if len(os.Args) != 2 {
 		fail("usage: extract <repo root>")
@@ -1010,6 +1443,7 @@ func main() {
 	rows = append(rows, extractFile(filepath.Join(dir, "lease_manager.go"), "lease", "LeaseManager")...)
 	rows = append(rows, extractFile(filepath.Join(dir, "partition_router.go"), "partition", "PartitionRouter")...)
 	rows = append(rows, extractFile(filepath.Join(dir, "group_router.go"), "group", "GroupRouter")...)
+	rows = append(rows, extractFunc(filepath.Join(dir, "partition_lease.go"), "acquireall", "PartitionLeaseManager", "AcquireAll")...)
 	enc := json.NewEncoder(os.Stdout)
 	enc.SetEscapeHTML(false)
 	for _, r := range rows {
@@ -1017,6 +1451,14 @@ func main() {
 			r.Guard = []string{}
 		}
 		if err := enc.Encode(r); err != nil {
+			fail("%v", err)
+		}
+	}
+	for _, k := range []KeyExpr{
+		keyExpr(filepath.Join(dir, "lease_manager.go"), "LeaseManager", "leaseKey"),
+		keyExpr(filepath.Join(dir, "partition_lease.go"), "", "partitionResourceID"),
+	} {
+		if err := enc.Encode(k); err != nil {
 			fail("%v", err)
 		}
 	}
